@@ -44,6 +44,13 @@ def oid_lines(rng, quick):
         a1 = rng.randrange(0, 40) if a0 < 2 else rng.choice([rng.randrange(0, 200), rng.randrange(0, U32 - 80)])
         vecs.append([a0, a1] + [rng.choice(ARC_EDGES + [rng.getrandbits(rng.choice([7, 8, 14, 21, 28, 32]))])
                                 for _ in range(n - 2)])
+    # vectors whose every arc needs the maximal five octets (buffer estimates), of growing length
+    for n in (1, 2, 3, 4, 5, 6, 7, 10, 12, 20, 40, 62):
+        vecs.append([2, U32 - 81] + [U32] * n)
+        vecs.append([2, U32 - 80 - n] + [U32 - i for i in range(n)])
+        vecs.append([1, 2] + [(1 << 28) + i for i in range(n)])
+        vecs.append([0, 39] + [U32, 1 << 28] * (n // 2 + 1))
+    vecs = [v[:60] for v in vecs]
     vecs += [[], [1], [0], [2]]
     for v in vecs:
         lines.append("oidset %s" % (",".join(map(str, v)) or "-"))
@@ -234,6 +241,10 @@ def time_lines(rng, quick):
     for _ in range(400 if quick else 30000):
         ts.append(rng.randrange(-62135596800 + 86400 * 2, 253402300799 - 86400 * 2))
         ts.append(rng.randrange(-2 ** 31, 2 ** 32))
+    # both ends of every decade of the UTCTime window
+    for y in range(1960, 2061, 10):
+        base = int((datetime.datetime(y, 1, 1) - EPOCH).total_seconds())
+        ts += [base - 1, base, base + 1, base + 86400 * 200, base + 86400 * 365 * 5]
     for t in ts:
         fd = rng.choice([0, 0, 1, 2, 3, 6, 9])
         fv = rng.randrange(0, 10 ** fd) if fd else 0
@@ -241,7 +252,7 @@ def time_lines(rng, quick):
             fv = (fv // 10) * 10     # trailing zero
         lines.append("t2gt %d %d %d" % (t, fv, fd))
         meta.append(("t2gt", (t, fv, fd)))
-        if -315619200 <= t <= 2524607999:     # 1960-01-01 .. 2049-12-31
+        if -315619200 <= t <= 2840140799:     # 1960-01-01 .. 2059-12-31: the library's own window (YY >= 60 -> 19YY)
             lines.append("t2ut %d" % t)
             meta.append(("t2ut", t))
     return lines, meta
@@ -308,7 +319,7 @@ def run(tier, seed):
                 "and time_t values, the time part once per TZ setting in a separate process; oracle = Python integers "
                 "and datetime; distinct = distinct (TZ, call) pairs")
     chk.assumptions = ["proleptic Gregorian UTC arithmetic of Python datetime is the meaning of time_t",
-                       "UTCTime judged only for 1960..2049 where the common two-digit-year windows agree",
+                       "UTCTime's two-digit-year window is taken to be the library's own: 1960..2059 (asn_UT2time: YY >= 60 -> 19YY, else 20YY)",
                        "for 2.x arcs with 80+x > 2^32-1 either a clean rejection or exact octets are accepted"]
     tc = build.toolchain()
     exe = build_hdriver(tc)
